@@ -267,7 +267,11 @@ func (pg *peerGater) getPeerStats(p peer.ID) *peerGaterStats {
 	st, ok := pg.peerStats[p]
 	if !ok {
 		st = pg.getIPStats(p)
-		pg.peerStats[p] = st
+		// A verdict for a message of a peer that has left in the meantime must
+		// not re-create its entry: nothing would ever remove it again.
+		if pg.host == nil || pg.host.Network().Connectedness(p) == network.Connected {
+			pg.peerStats[p] = st
+		}
 	}
 	return st
 }
